@@ -1491,12 +1491,24 @@ struct Reopen {
   sync: bool,
   reserved: u32,
   minseg: u32,
+  /// optional 10th token `trunc=1`: the Options value carries `with_truncate(true)`; only meaningful (and only
+  /// accepted) for the read-only modes, whose open must clear it
+  trunc: bool,
 }
 
 impl Reopen {
   /// `same_cap`: what `cap=same` stands for
   fn parse(t: &[&str], same_cap: u32) -> Option<Reopen> {
-    if t.len() != 9 || t[0] != "reopen" {
+    if (t.len() != 9 && t.len() != 10) || t[0] != "reopen" {
+      return None;
+    }
+    let trunc = match t.get(9) {
+      None => false,
+      Some(&"trunc=0") => false,
+      Some(&"trunc=1") => true,
+      _ => return None,
+    };
+    if trunc && !matches!(t[1], "ro" | "copy_ro") {
       return None;
     }
     let val = |i: usize, key: &str| -> Option<&str> { t[i].strip_prefix(key)?.strip_prefix('=') };
@@ -1527,6 +1539,7 @@ impl Reopen {
       },
       reserved: val(7, "reserved")?.parse().ok()?,
       minseg: val(8, "minseg")?.parse().ok()?,
+      trunc,
     })
   }
 }
@@ -1588,6 +1601,9 @@ impl<A: Flavour> Case<A> {
       }
       if let Some(c) = r.cap {
         o = o.with_capacity(c);
+      }
+      if r.trunc {
+        o = o.with_truncate(true);
       }
       unsafe {
         match r.mode {
